@@ -78,6 +78,57 @@ fn run_kind(plan: &mut Plan, gen: Option<(Profile, usize)>, ovf: bool, dbg: bool
     }
 }
 
+/// C19, fixed boundary scenarios that no generated plan reaches (element counts around `usize::MAX` need zero-sized
+/// elements; there is no `std` counterpart of `extend_from_slices_copy`, the reference is the same slices appended one
+/// by one with `extend_from_slice_copy`).  Each line returned is an oracle failure.
+fn boundary() -> Vec<String> {
+    use bumpalo::collections::Vec as BVec;
+    use std::panic::{catch_unwind, AssertUnwindSafe};
+    let mut fails = vec![];
+    let mut trace = String::from("# BOUNDARY\n");
+    static BIG: [(); usize::MAX] = [(); usize::MAX];
+    let few = [(); 3];
+    // (slices, length before) — totals on both sides of usize::MAX
+    let cases: [(&str, std::vec::Vec<&[()]>, usize); 6] = [
+        ("max", vec![&BIG[..]], 0),
+        ("max+3", vec![&BIG[..], &few[..]], 0),
+        ("3+max", vec![&few[..], &BIG[..]], 0),
+        ("max+max", vec![&BIG[..], &BIG[..]], 0),
+        ("len2+max-3+3", vec![&BIG[..usize::MAX - 3], &few[..]], 2),
+        ("len0+max-3+3", vec![&BIG[..usize::MAX - 3], &few[..]], 0),
+    ];
+    for (name, slices, pre) in cases.iter() {
+        let b = bumpalo::Bump::new();
+        let total: Option<usize> = slices.iter().try_fold(*pre, |a, s| a.checked_add(s.len()));
+        let mut v: BVec<()> = BVec::new_in(&b);
+        for _ in 0..*pre {
+            v.push(());
+        }
+        let r = catch_unwind(AssertUnwindSafe(|| v.extend_from_slices_copy(slices)));
+        let mut u: BVec<()> = BVec::new_in(&b);
+        for _ in 0..*pre {
+            u.push(());
+        }
+        let r1 = catch_unwind(AssertUnwindSafe(|| {
+            for s in slices.iter() {
+                u.extend_from_slice_copy(s);
+            }
+        }));
+        trace.push_str(&format!("# boundary {} total={:?} slices_copy: panicked={} len={} | one-by-one: panicked={} len={}\n", name, total, r.is_err(), v.len(), r1.is_err(), u.len()));
+        match total {
+            None if r.is_ok() => fails.push(format!(
+                "ORACLE C19 unrepresentable-total-accepted boundary={} extend_from_slices_copy of zero-sized slices whose lengths sum above usize::MAX returned with len={} (one by one: panicked={})",
+                name, v.len(), r1.is_err())),
+            Some(t) if r.is_err() || v.len() != t => fails.push(format!(
+                "ORACLE C19 representable-total-refused boundary={} total={} panicked={} len={}", name, t, r.is_err(), v.len())),
+            _ => {}
+        }
+    }
+    let mut out = vec![trace.trim_end().to_string()];
+    out.extend(fails);
+    out
+}
+
 fn main() {
     let args: Vec<String> = std::env::args().collect();
     let toks: Vec<&str> = args.iter().map(|s| s.as_str()).collect();
@@ -128,9 +179,19 @@ fn main() {
                 do_plan(&mut plan, Some((prof, n_ops_per)), &mut out);
             }
         }
+        "boundary" => {
+            for f in boundary() {
+                writeln!(out, "{}", f).unwrap();
+            }
+        }
         "replay" => {
             let path = toks.get(2).expect("replay <file>");
             let text = std::fs::read_to_string(path).expect("read plan file");
+            if text.lines().any(|l| l.trim() == "BOUNDARY") {
+                for f in boundary() {
+                    writeln!(out, "{}", f).unwrap();
+                }
+            }
             for mut plan in Plan::parse(&text) {
                 do_plan(&mut plan, None, &mut out);
             }
